@@ -348,6 +348,7 @@ func runGrp(t *testing.T, tk []string) string {
 		log.Add("J:%d", m)
 		live.Store(m, struct{}{})
 		deadline := time.Now().Add(lifetime)
+		pausing, pausedPart, pausedFor := seed%4 == 2, int32(0), 0
 		for (forever && !stopAll.Load()) || (!forever && time.Now().Before(deadline) && !stopAll.Load()) {
 			pctx, pc := context.WithTimeout(ctx, time.Duration(50+wr.Intn(150))*time.Millisecond)
 			log.Add("Ps:%d", m)
@@ -365,6 +366,19 @@ func runGrp(t *testing.T, tk []string) string {
 			})
 			if wr.Chance(25) {
 				time.Sleep(time.Duration(wr.Intn(60)) * time.Millisecond) // processing
+			}
+			// backpressure (a quarter of the scenarios): a partition is paused for a few polls, with records of it
+			// possibly still buffered in the client, and resumed; pausing never changes what is committed or returned
+			if pausing {
+				if pausedFor > 0 {
+					if pausedFor--; pausedFor == 0 {
+						cl.ResumeFetchPartitions(map[string][]int32{"t": {pausedPart}})
+					}
+				} else if wr.Chance(15) {
+					pausedPart, pausedFor = int32(wr.Intn(parts)), 1+wr.Intn(4)
+					cl.PauseFetchPartitions(map[string][]int32{"t": {pausedPart}})
+					hx.St.Inc("scen.grp.partition-paused")
+				}
 			}
 			if blockpoll {
 				cl.AllowRebalance()
